@@ -34,6 +34,10 @@ type Check struct {
 	// RaceFrames: when running under the race build, a report with a frame containing one of these
 	// substrings is a violation (default: "talostrading/sonic").
 	RequireCounters []string // counters that must be > 0 at the end or the run is inconclusive
+	// CaseTimeout bounds one case (default 120 s for work that takes milliseconds). A case that does not return
+	// is the refuting observation "a library call never returned" (every property excludes that); the child
+	// records it with the script so far and exits with code 3, the driver restarts after that case.
+	CaseTimeout time.Duration
 }
 
 type Violation struct {
@@ -372,6 +376,41 @@ func RunChild(chk *Check, tier, build string, seed uint64, shard, shards, from, 
 	r.progress = pf
 	propSeed := Mix(seed, HashString(chk.ID))
 	lastFlush := time.Now()
+	var curMu sync.Mutex
+	var cur *Case
+	var curStart time.Time
+	caseTimeout := chk.CaseTimeout
+	if caseTimeout == 0 {
+		caseTimeout = 120 * time.Second
+	}
+	go func() {
+		for {
+			time.Sleep(time.Second)
+			curMu.Lock()
+			c, st := cur, curStart
+			curMu.Unlock()
+			if c == nil || time.Since(st) < caseTimeout {
+				continue
+			}
+			buf := make([]byte, 1<<16)
+			n := runtime.Stack(buf, true)
+			sc := c.Script()
+			last := ""
+			if len(sc) > 0 {
+				last = sc[len(sc)-1]
+			}
+			fn := firstSonicFrame(string(buf[:n]))
+			key := "call-never-returned/" + fn
+			if fn == "harness" {
+				key = "harness-case-stuck"
+			}
+			r.addViolation(Violation{Property: c.Prop, Key: key, Seed: c.Seed, Case: c.Index, Build: c.Build, Tier: c.Tier,
+				Msg:    fmt.Sprintf("the case did not finish within %v; last step logged: %s", caseTimeout, last),
+				Script: sc, Stack: trimStack(string(buf[:n]), 6000)})
+			r.flush(false)
+			os.Exit(3)
+		}
+	}()
 	for i := from; i < n; i++ {
 		if only >= 0 {
 			if i != only {
@@ -385,7 +424,13 @@ func RunChild(chk *Check, tier, build string, seed uint64, shard, shards, from, 
 			Prop: chk.ID, Tier: tier, Build: build, Seed: seed, Index: i,
 			Rng: NewRand(Mix(propSeed, uint64(i))), res: r.res, runner: r,
 		}
+		curMu.Lock()
+		cur, curStart = c, time.Now()
+		curMu.Unlock()
 		runOne(chk, c)
+		curMu.Lock()
+		cur = nil
+		curMu.Unlock()
 		r.mu.Lock()
 		r.res.Evaluations++
 		r.res.LastCase = i
